@@ -8,6 +8,7 @@ CONSTANTS
   Faults = FALSE
   RunFinally = TRUE
 SPECIFICATION LiveSpec
+PROPERTY ObsRefined
 INVARIANT InOrderOnce
 INVARIANT Complete
 INVARIANT NoWriteWhenNotOpen
